@@ -56,7 +56,10 @@ func (lp LinkPrototype) BuildLink(hashsum []byte) datamodel.Link {
 		panic(fmt.Errorf("invalid cid v0 prefix"))
 	}
 
-	if length != -1 {
+	if length != -1 && length <= len(hashsum) {
+		// (A declared length beyond the hash output -- possible in links taken from
+		// untrusted data -- is left untruncated; the resulting link then simply
+		// differs from the expected one instead of panicking here.)
 		hashsum = hashsum[:p.MhLength]
 	}
 
